@@ -575,6 +575,27 @@ def do_check(pid, tier, replay):
         disagree = [i for i in v["bad_agree"] if i not in v["bad_spec"]]
         # disagreements on inputs covered by a known finding do not count
         disagree = [i for i in disagree if not any(matches_finding(uniq[i], f) for f in kfs)]
+        # A disagreement (the oracle of the property accepts the observation, the model predicted another one)
+        # may come from the harness's own timing when the machine is overloaded: re-run such cases alone; the
+        # ones that then agree are recorded as unstable and not counted. Spec failures are never filtered.
+        unstable = []
+        if disagree and len(disagree) <= 12 and not replay and judge_ok:
+            still = []
+            for i in disagree:
+                rargs = uniq[i].get("replay")
+                if not rargs:
+                    still.append(i)
+                    continue
+                ok_runs = 0
+                for _ in range(2):
+                    rr = run_and_judge(prop, tier, seed, workdir, "recheck", list(rargs))
+                    if rr["uniq"] and not rr["verdict"]["error"] and not rr["verdict"]["bad_agree"] and not rr["verdict"]["bad_spec"]:
+                        ok_runs += 1
+                if ok_runs == 2:
+                    unstable.append(uniq[i].get("id"))
+                else:
+                    still.append(i)
+            disagree = still
         if (disagree or proof_broken or corr_broken) and not violations and not replay:
             # the property is no longer shown to hold: search for a failing input
             found = None
@@ -653,6 +674,8 @@ def do_check(pid, tier, replay):
         )
         if known_lines:
             ev["coverage"]["known_findings_seen"] = known_lines
+        if unstable:
+            ev["coverage"]["unstable_under_load"] = unstable
         if not replay:
             os.makedirs(os.path.join(ROOT, "evidence"), exist_ok=True)
             with open(os.path.join(ROOT, "evidence", pid + ".json"), "w") as f:
